@@ -32,8 +32,8 @@ CHECKS = {
  "C20": dict(
   engine="E5 cooperative scheduler (pre-emption-bounded stateless exploration)",
   technique="stateless model checking of the real code under a controlled cooperative scheduler: all schedules of 2-3 goroutine bodies up to a pre-emption bound at I/O-call granularity and all interleavings at API-call granularity; oracle on every schedule: per-goroutine observations equal the solo run, shared inputs unchanged, deep fingerprint of every package-level variable unchanged; plus a separate free-running race-detector pass of the same bodies",
-  text="10 bodies (DecodeFileSR->Info->EncodeSW, DecodeFile->Encode, encrypt cbcs, encrypt cenc with shared key/IV buffer, decrypt, Annex B + parameter-set/SEI/ADTS parsing, DecodeFileSR(own copy)->decrypt, DecodeFile from *bytes.Buffer over the shared bytes with 64-bit mdat headers -> encrypt / -> decrypt, DecodeFileSR(shared bytes)->decrypt) over the same shared input bytes; every pair (incl. a body with itself): all interleavings at API-call granularity (unbounded) and all schedules with <= 1 (thorough: <= 2) pre-emptions where every Read/Seek/Write and every SliceReader/SliceWriter method call is a scheduling point (~700 points per pair); triples at call granularity with <= 2 pre-emptions. 45 000 schedules quick, 1.8 million schedules / 1.6 billion scheduling points thorough. 32 package-level variables fingerprinted through generated accessors.",
-  note="The scheduler sees only the points it is given; code between two points runs atomically, unsynchronised accesses in between are covered by the separate -race pass (16 goroutines, free-running), which is blind to writes done in assembly (AES). The library contains no sync primitives or go statements (re-checked by a source scan at every run). One known finding (DecodeFileSR aliasing + in-place decryption writes the shared input).",
+  text="11 bodies (DecodeFile in lazy-mdat mode->Info->ReadData->Encode, DecodeFileSR->Info->EncodeSW, DecodeFile->Encode, encrypt cbcs, encrypt cenc with shared key/IV buffer, decrypt, Annex B + parameter-set/SEI/ADTS parsing, DecodeFileSR(own copy)->decrypt, DecodeFile from *bytes.Buffer over the shared bytes with 64-bit mdat headers -> encrypt / -> decrypt, DecodeFileSR(shared bytes)->decrypt) over the same shared input bytes; every pair (incl. a body with itself): all interleavings at API-call granularity (unbounded) and all schedules with <= 1 (thorough: <= 2) pre-emptions where every Read/Seek/Write and every SliceReader/SliceWriter method call is a scheduling point (~700 points per pair); triples at call granularity with <= 2 pre-emptions. 45 000 schedules quick, 1.8 million schedules / 1.6 billion scheduling points thorough. 32 package-level variables fingerprinted through generated accessors.",
+  note="The scheduler sees only the points it is given; code between two points runs atomically, unsynchronised accesses in between are covered by the separate -race pass (16 goroutines, free-running), which is blind to writes done in assembly (AES). The library contains no sync primitives or go statements (re-checked by a source scan at every run). One known finding (DecodeFileSR aliasing + in-place decryption writes the shared input). The baseline of the package-level fingerprint is taken before the first library call of each worker process.",
   design="3 C20"),
  "C16": dict(
   engine="E1-style explicit-state search over byte strings (isolated workers)",
@@ -74,7 +74,7 @@ CHECKS = {
  "C12": dict(
   engine="E3 product enumerator from intended partitions + overlay driver + independent walker",
   technique="exhaustive enumeration of layouts generated from an intended partition x delimiter mechanism x decode flags x decoder; real decode/encode/UpdateSidx, output positions checked by an independent box walker",
-  text="Files are generated by a raw writer from an intended partition (1-3 segments x 1-2 fragments x 1-2 tracks) with each delimiter mechanism (styp, one or two top-level sidx, mfra/tfra, none), emsg placements, 0-2 segment-level sidx, zero/non-zero first presentation time, an optional free box between top-level index and first segment (first_offset != 0), optional mdat lead-in and five sample-table forms (explicit trun fields, tfhd defaults, trex defaults, two truns per traf, mixed), and decoded with all four flag combinations by both decoders: the decoded partition must equal the intended one, every moof/mdat pair must be in exactly one segment in order, segment-mode re-encode must be byte-identical per fragment; then UpdateSidx(add, nonZeroEPT both ways)+Encode through the API and the add-sidx example, and anchor, contiguity, per-reference start, end of media and durations are checked against actual box positions.",
+  text="Files are generated by a raw writer from an intended partition (1-3 segments x 1-2 fragments x 1-2 tracks) with each delimiter mechanism (styp, one or two top-level sidx, mfra/tfra, none), emsg placements, 0-2 segment-level sidx, zero/non-zero first presentation time, an optional free box between top-level index and first segment (first_offset != 0), video+audio in either order (audio in another timescale when first; the index must be in the reference track's timescale), optional mdat lead-in and five sample-table forms (explicit trun fields, tfhd defaults, trex defaults, two truns per traf, mixed), and decoded with all four flag combinations by both decoders: the decoded partition must equal the intended one, every moof/mdat pair must be in exactly one segment in order, segment-mode re-encode must be byte-identical per fragment; then UpdateSidx(add, nonZeroEPT both ways)+Encode through the API and the add-sidx example, and anchor, contiguity, per-reference start, end of media and durations are checked against actual box positions.",
   note="Two known findings are listed in known_findings.txt (trun data_offset rewritten for mdat lead-in; second top-level sidx kept by UpdateSidx). Where the start-on-moof option meets a top-level sidx or an mfra read under the ISM flag, the index wins (documented on DecStartOnMoof). 1-2 samples per fragment.",
   design="3 C12"),
  "C19": dict(
@@ -92,25 +92,25 @@ CHECKS = {
  "C11": dict(
   engine="E3 product enumerator + overlay drivers + independent fragment reader",
   technique="exhaustive enumeration of generated inputs x every target duration x every tool mode; tools' own entry points run in-process; outputs re-parsed by an independent reader and compared sample by sample",
-  text="Segmenter run() (single-track, -m, -lazy), Resegment(), MediaSegment.Fragmentify and combine-segs' combineInitSegments/combineMediaSegments are driven on every generated input (all sync subsets, duration tuples, chunkings, default modes, 32/64-bit mdat header, non-sync samples as P-picture or open-GOP I-picture flags) for every target duration from 1 tick to total+1; the concatenated per-track sample lists of all outputs (count, bytes, duration, flags, cto, decode time) are compared with the input, and every produced segment must start with a sync sample of the reference track.",
+  text="Segmenter run() (single-track, -m, -lazy), Resegment(), MediaSegment.Fragmentify and combine-segs' combineInitSegments/combineMediaSegments are driven on every generated input (all sync subsets, duration tuples, chunkings, default modes, 32/64-bit mdat header, non-sync samples as P-picture or open-GOP I-picture flags, zero durations, two truns per traf) for every target duration from 1 tick to total+1; the concatenated per-track sample lists of all outputs (count, bytes, duration, flags, cto, decode time) are compared with the input, and every produced segment must start with a sync sample of the reference track.",
   note="Inputs stay inside each tool's documented domain; tool errors are tallied, panics and silent differences are violations. Tracks have at most 5/7 samples, two tracks at most. Outputs are parsed by /verif/internal/ref/fragref (independent of mp4ff).",
   design="3 C11"),
  "C10": dict(
   engine="E3 product enumerator + overlay driver",
   technique="exhaustive enumeration of generated progressive files x every crop duration in ms, tool's own cropMP4 run in-process, output re-parsed by an independent box walker and table expansion",
-  text="Every generated file (all chunkings x sync subsets x duration tuples x table variants x 32/64-bit mdat header x tkhd duration understated; video+audio with every chunk merge order and two audio timescales) and tracks of 3-4 samples with durations over {2^31, 2^32-1, 1} at timescales 1000/90000/10^7 (cropped at the boundary set of milliseconds around every sample start) is cropped by the tool's unexported cropMP4 (overlay-injected test driver, /repo untouched) at every millisecond from 1 to total+2; each successful output is parsed by the independent walker/expansion and compared sample by sample (bytes, duration, cto, sync, sdtp, size), mdat tiling, chunk offsets and header durations.",
+  text="Every generated file (all chunkings x sync subsets x duration tuples x table variants x 32/64-bit mdat header x tkhd duration understated; video+audio with every chunk merge order and two audio timescales) and files with the audio track first, three tracks, two video tracks with different sync samples, two audio tracks, empty samples, and tracks of 3-4 samples with durations over {2^31, 2^32-1, 1} at timescales 1000/90000/10^7 (cropped at the boundary set of milliseconds around every sample start) is cropped by the tool's unexported cropMP4 (overlay-injected test driver, /repo untouched) at every millisecond from 1 to total+2; each successful output is parsed by the independent walker/expansion and compared sample by sample (bytes, duration, cto, sync, sdtp, size), mdat tiling, chunk offsets and header durations.",
   note="Only successful crops are judged (errors and panics of the tool are tallied in outcomes). Tracks have at most 5/7 samples; flag parsing of the command line is not exercised. The end time is computed exactly from the input tables.",
   design="3 C10"),
  "C08": dict(
   engine="E3 product enumerator",
   technique="exhaustive enumeration of generated files x all byte ranges x all sample intervals x work-buffer sizes, differential lazy vs in-memory vs file bytes",
-  text="For every generated progressive file (all chunkings of N <= 6 (quick) / 9 (thorough) samples x mdat before/after moov x 32/64-bit mdat header x 1-2 interleaved tracks x lead-in) with optional trailing boxes after mdat, and small fragmented files, both decode modes are run and compared on Info, sizes and positions; every non-empty (start,size) range inside every mdat payload is read with ReadData and CopyData in both modes and compared with the file slice; every sample interval is copied with CopySampleData for 8 work-buffer sizes; a lazily decoded mdat must encode to exactly its header; every sequence of 2 (payload <= 9/13 bytes) or 3 (<= 3/5 bytes) calls from {ReadData, CopyData of every range of every mdat, CopySampleData of every interval, caller seeks} on ONE shared reader returns the file bytes; the segmenter example is run (overlay driver) in default and -lazy mode on every generated file and both outputs must be byte-identical.",
-  note="Files are tiny (payload <= ~30 bytes) so that ALL ranges can be enumerated; behaviour that depends on payloads >= 4 GiB (automatic switch to largesize) is not reached. Fragmented files are produced by the library's own fragment API.",
+  text="For every generated progressive file (all chunkings of N <= 6 (quick) / 9 (thorough) samples x mdat before/after moov x 32/64-bit mdat header x 1-2 interleaved tracks x lead-in) with optional trailing boxes after mdat, and small fragmented files, both decode modes are run and compared on Info, sizes and positions; every non-empty (start,size) range inside every mdat payload is read with ReadData and CopyData in both modes and compared with the file slice; every sample interval is copied with CopySampleData for 8 work-buffer sizes; a lazily decoded mdat must encode to exactly its header; DecodeBoxLazyMdat on every top-level box under three start-position values equals DecodeBox; every sequence of 2 (payload <= 9/13 bytes) or 3 (<= 3/5 bytes) calls from {ReadData, CopyData of every range of every mdat, CopySampleData of every interval, caller seeks} on ONE shared reader returns the file bytes; the segmenter example is run (overlay driver) in default and -lazy mode on every generated file and both outputs must be byte-identical.",
+  note="Files are tiny (payload <= ~30 bytes) so that ALL ranges can be enumerated; behaviour that depends on payloads >= 4 GiB (automatic switch to largesize) is not reached. Fragmented files are produced by the library's own fragment API. One known finding is listed in known_findings.txt (positions after a non-mdat top-level box in 64-bit header form are 8 bytes short).",
   design="3 C08"),
  "C09": dict(
   engine="E3 product enumerator",
   technique="exhaustive enumeration of all run-length tables up to N samples, every query argument, vs naive per-sample expansion",
-  text="Every run-length encoding of every table for N <= 7 (quick) / 10 (thorough) samples is serialised by an independent raw writer, decoded by the library, and every query is asked for every sample number, every interval 1<=a<=b<=N and every time 0..total+1; answers are compared with the naive per-sample expansion. Combined queries (GetSampleData, GetRangesForSampleInterval, CopySampleData) run on generated files for all chunkings of N <= 5/7 samples x 8 table variants x 1-2 tracks; on the files with N <= 3/4 every ordered pair of queries is asked on a freshly decoded file and the second answer must equal the answer given alone (read-only queries are history independent).",
+  text="Every run-length encoding of every table for N <= 7 (quick) / 10 (thorough) samples is serialised by an independent raw writer, decoded by the library, and every query is asked for every sample number, every interval 1<=a<=b<=N and every time 0..total+1; answers are compared with the naive per-sample expansion. Combined queries (GetSampleData, GetRangesForSampleInterval, CopySampleData) run on generated files for all chunkings of N <= 5/7 samples x 8 table variants x 1-2 tracks; on the files with N <= 3/4 every ordered pair of queries is asked on a freshly decoded file and the second answer must equal the answer given alone (read-only queries are history independent). stsc tables are queried both as decoded from bytes and as built through StscBox.AddEntry; the combined files use three run-length patterns of the per-sample values.",
   note="Consistent tables only (as the statement says). Value alphabets are small plus boundaries ({1,2,3,2^31,2^32-1} durations/sizes, offsets {0,1,2,-1}); times for long tracks are the boundary set (every run edge +-1); GetTimeCode is compared in arbitrary precision; CopySampleData work buffers {0,1,2,3,4,6}; N is bounded. GetSampleNrAtTime reference follows the contract pinned by the repository's own unit test (N+1 strictly inside the last sample).",
   design="3 C09"),
  "C13": dict(
